@@ -63,6 +63,21 @@ class SkPath(Ext):
     def sym_copy(self):
         return self.clone()
 
+    def _concrete_box(self):
+        """(x1, y1, x2, y2) of a path the engine has not touched whose segments are straight and whose coordinates are constants."""
+        from sa.sym import is_num, to_rf
+        if self.region is not None or self.calls or not self.verbs or any(n not in ("moveTo", "lineTo", "close") for n, _ in self.verbs):
+            return None
+        xs, ys = [], []
+        for n, a in self.verbs:
+            for i, v in enumerate(a):
+                if not is_num(v) or not to_rf(v).is_const():
+                    return None
+                (xs if i % 2 == 0 else ys).append(to_rf(v).const_value())
+        if not xs:
+            return None
+        return (min(xs), min(ys), max(xs), max(ys))
+
     def sym_truth(self, it):
         return bool(self.verbs) or self.region is not None
 
@@ -122,6 +137,9 @@ class SkPath(Ext):
         if attr == "convertConicsToQuads":
             return PyCallable(lambda i, a, k: self.calls.append(("conics", tuple(a))))
         if attr in ("bounds", "controlPointBounds"):
+            conc = self._concrete_box()
+            if conc is not None:
+                return conc
             return (attr, self)
         if attr == "area":
             return SkArea(self)
